@@ -241,6 +241,8 @@ def rule_c(ctx):
 
 
 def run(ctx):
+    from .. import fixtures
+    ctx.guarded("C13.FX", lambda c: fixtures.run(c, ['escapes']))
     ctx.guarded("C13.a", rule_a)
     ctx.guarded("C13.b", rule_b)
     ctx.guarded("C13.c", rule_c)
